@@ -4,7 +4,7 @@ from concurrent.futures import ThreadPoolExecutor
 import vf
 
 PKG = "."
-FILES = ["vf_export_verif_test.go"]
+FILES = ["vf_export_verif_test.go", "vf_exportforeign_verif_test.go", "vf_foreign_verif_test.go"]
 DRV = "^TestVerifExportRestore$"
 MON = ("MonExportRestore", "Mon_ExportRestore.cfg")
 
@@ -57,6 +57,21 @@ def gen(ctx):
         sims = list(ex.map(sim, range(len(plans))))
     for k, (hs, walks) in enumerate(sims):
         scripts += vf.scripts_from_tlc(hs, cfg={"plan": k, "rich": plans[k][0]}, start_id=len(scripts), limit=walks, rng=ctx.rng)
+    # model-independent histories with a SECOND WRITER: another member's device appends to the multi-member group and
+    # its heads reach the exporting node, so the exported logs have several heads (the model's histories are
+    # single-writer: one head per log)
+    A0 = {"tgt": {"t": "-", "n": "-", "g": "-", "s": "-", "k": 0, "kn": 0}, "at": {"t": "-", "n": "-", "g": "-", "s": "-", "k": 0, "kn": 0}, "kn": 0, "cls": ""}
+
+    def st(act, s="", d="", x=0):
+        return {"act": act, "s": s, "x": x, "y": 0, "d": d, "a": json.loads(json.dumps(A0)), "res": {}}
+    multi = [
+        [st("op", "mmcreate"), st("op", "msg", "mm", 1), st("op", "foreign", "mm", 1), st("export"), st("restore", "none")],
+        [st("op", "mmcreate"), st("op", "foreign", "mm", 1), st("op", "foreign", "mm", 2), st("export"), st("restore", "none")],
+        [st("op", "mmcreate"), st("op", "meta", "mm", 1), st("op", "msg", "mm", 2), st("op", "foreign", "mm", 1), st("export"), st("restore", "none"),
+         st("op", "msg", "mm", 3), st("op", "foreign", "mm", 2), st("export"), st("restore", "none")],
+    ]
+    for h in (multi if quick else multi * 3):
+        scripts.append({"id": 0, "cfg": {"plan": "blind-multihead", "rich": True}, "steps": json.loads(json.dumps(h))})
     for i, s in enumerate(scripts):
         s["id"] = i
     if not scripts:
@@ -205,6 +220,8 @@ def conformance(ctx, scripts, blocks):
     cmp_, agree, diffs = 0, 0, {}
     for s in scripts:
         exp = None
+        if str(s["cfg"].get("plan", "")).startswith("blind"):
+            continue            # model-independent histories carry no prediction
         for st, ev in zip(s["steps"], blocks[s["id"]]):
             if ev.get("ev") == "export" and not ev.get("skip"):
                 exp = ev
